@@ -907,8 +907,10 @@ class ArgumentParser(ParserDeprecations, ActionsContainer, ArgumentLinking, argp
         check_overwrite(path_fc)
 
         if not multifile:
+            # validate and serialise before the file is opened, so that a failure leaves it untouched
+            content = self.dump(cfg, **dump_kwargs)  # type: ignore[arg-type]
             with open(path_fc.absolute, "w") as f:
-                f.write(self.dump(cfg, **dump_kwargs))  # type: ignore[arg-type]
+                f.write(content)
 
         else:
             cfg = cfg.clone()
@@ -917,6 +919,14 @@ class ArgumentParser(ParserDeprecations, ActionsContainer, ArgumentLinking, argp
             if not skip_validation:
                 with parser_context(load_value_mode=self.parser_mode):
                     self.validate(strip_meta(cfg), branch=branch)
+
+            # nothing is written until every file has been checked and rendered
+            pending: List[Tuple[str, str]] = []
+
+            def add_pending(file_path, content):
+                if file_path == path_fc.absolute or any(file_path == p for p, _ in pending):
+                    raise ValueError(f"Refusing to save more than one config to the same file: {file_path}")
+                pending.append((file_path, content))
 
             def save_paths(cfg):
                 for key in cfg.get_sorted_keys():
@@ -934,21 +944,21 @@ class ArgumentParser(ParserDeprecations, ActionsContainer, ArgumentLinking, argp
                             else:
                                 is_json = str(val_path).lower().endswith(".json")
                                 val_str = dump_using_format(self, val_out, "json_indented" if is_json else format)
-                            with open(val_path.absolute, "w") as f:
-                                f.write(val_str)
+                            add_pending(val_path.absolute, val_str)
                             cfg[key] = os.path.basename(val_path.absolute)
                     elif isinstance(val, Path) and key in self.save_path_content and "r" in val.mode:
                         val_path = Path(os.path.basename(val.absolute), mode="fc")
                         check_overwrite(val_path)
-                        with open(val_path.absolute, "w") as f:
-                            f.write(val.get_content())
-                        cfg[key] = type(val)(str(val_path))
+                        add_pending(val_path.absolute, val.get_content())
+                        cfg[key] = str(val_path)
 
             with change_to_path_dir(path_fc), parser_context(parent_parser=self):
                 save_paths(cfg)
             dump_kwargs["skip_validation"] = True
-            with open(path_fc.absolute, "w") as f:
-                f.write(self.dump(cfg, **dump_kwargs))  # type: ignore[arg-type]
+            pending.append((path_fc.absolute, self.dump(cfg, **dump_kwargs)))  # type: ignore[arg-type]
+            for file_path, content in pending:
+                with open(file_path, "w") as f:
+                    f.write(content)
 
     ## Methods related to defaults ##
 
